@@ -2,7 +2,8 @@
 # usage: collect_harmless.sh <ID> : checks /tmp/h1/<ID>/out/k (evidence.py exits 0 clean and patched, patch applies) and copies to /verif/harmless/<ID>-k
 id=$1; base=${H_BASE:-/tmp/h1}; commit=${H_COMMIT:-HEAD}
 export JAX_PLATFORMS=cpu TF_CPP_MIN_LOG_LEVEL=3; [ -n "$H_NODEV" ] || export XLA_FLAGS=--xla_force_host_platform_device_count=8
-for k in 1 2 3; do
+off=${K_OFFSET:-0}
+for k in 1 2 3; do n=$((k+off))
   src=$base/$id/out/$k; [ -f $src/patch.diff ] || continue
   wt=/tmp/ch_${id}_${k}_$$
   git -C /repo worktree add --detach $wt $commit >/dev/null 2>&1
@@ -10,14 +11,14 @@ for k in 1 2 3; do
   git -C $wt apply $src/patch.diff; ap=$?
   timeout 1200 /venv/bin/python $src/evidence.py $wt >/tmp/ch_patched.log 2>&1; patched=$?
   git -C /repo worktree remove --force $wt
-  echo "$id-$k apply=$ap evidence_clean=$clean evidence_patched=$patched"
+  echo "$id-$n apply=$ap evidence_clean=$clean evidence_patched=$patched"
   if [ $ap -eq 0 ] && [ $clean -eq 0 ] && [ $patched -eq 0 ]; then
-    mkdir -p /verif/harmless/$id-$k; cp $src/patch.diff $src/argument.md $src/evidence.py /verif/harmless/$id-$k/
+    mkdir -p /verif/harmless/$id-$n; cp $src/patch.diff $src/argument.md $src/evidence.py /verif/harmless/$id-$n/
     python3 - <<PY
 import json
 m=json.load(open('$src/meta.json')); m['property']='$id'; m['base_commit']='$(git -C /repo rev-parse --short $commit)'
 m['confirmed']={'evidence_clean_exit':$clean,'evidence_patched_exit':$patched}
-json.dump(m,open('/verif/harmless/$id-$k/meta.json','w'),indent=1)
+json.dump(m,open('/verif/harmless/$id-$n/meta.json','w'),indent=1)
 PY
   fi
 done
